@@ -127,6 +127,9 @@ def solve_lp(
     # Extract LP coefficients (use cache if available)
     if problem._lp_cache is not None:
         lp_data = problem._lp_cache
+        # Bounds live on the Variable objects and may be edited between solves (that
+        # does not invalidate the cache), so they are read afresh on every solve.
+        lp_data.bounds = LinearProgramExtractor().extract_bounds(variables)
     else:
         extractor = LinearProgramExtractor()
         try:
